@@ -14,10 +14,13 @@ impl GenerationPass for LivenessPass {
         let mut changed = true;
         #[allow(clippy::mutable_key_type)]
         let mut visited = HashSet::new();
+        let mut sweeps = 0;
         while changed {
             #[cfg(feature = "verif-hooks")]
             crate::verif_hooks::sweep(crate::verif_hooks::Pass::Liveness);
             changed = false;
+            sweeps += 1;
+            let late = sweeps > cfg.iter().count() + 2;
             for node in cfg.iter().rev() {
                 // live_out[n] = U live_in[s] for all s in next[n]
                 let live_out = node
@@ -28,6 +31,20 @@ impl GenerationPass for LivenessPass {
                     .reduce(|acc, x| acc | x)
                     .unwrap_or_default();
                 changed |= node.set_live_out(live_out);
+
+                // u_def is a "must" set that is computed from the predecessors seen so far.
+                // Recomputed freely it can chase itself round a cycle for ever (a jump that
+                // also defines a register, `jal t0, L`, entering a loop from behind). Everything
+                // else has settled after one sweep per node; from then on a sweep may only take
+                // registers away from a set.
+                let seen = late && visited.contains(&node);
+                let settle = |u_def: crate::cfg::RegisterSet| {
+                    if seen {
+                        u_def & node.u_def()
+                    } else {
+                        u_def
+                    }
+                };
 
                 if let Some((func, _)) = node.calls_to_from_cfg(cfg) {
                     // live_in[F_exit] = live_in[F_exit] U gen[F_exit] U live_out[n]
@@ -54,6 +71,7 @@ impl GenerationPass for LivenessPass {
                         .unwrap_or_default()
                         - Register::caller_saved_set())
                         | (func.exit().u_def() & Register::return_set());
+                    let u_def = settle(u_def);
 
                     // live_in[n] = (live_in[F_entry] & argument-registers) U (live_out[n] - kill[n])
                     // kill[n] = caller-saved
@@ -82,6 +100,7 @@ impl GenerationPass for LivenessPass {
                         .unwrap_or_default()
                         - Register::caller_saved_set())
                         | rets;
+                    let u_def = settle(u_def);
 
                     // live_in[n] = (live_out[n] - caller-saved) U ecall_args U ecall_ins
                     // ecall_args = X17 (a7) in every case U inputs to the ecall if known by available value analysis, otherwise empty
@@ -118,6 +137,7 @@ impl GenerationPass for LivenessPass {
                         .map(|x| x.u_def())
                         .reduce(|acc, x| acc & x)
                         .unwrap_or_default();
+                    let u_def = settle(u_def);
                     changed |= node.set_u_def(u_def);
                 } else if node.is_function_entry() {
                     // live_in[n] = gen[n] U (live_out[n] - kill[n])
@@ -140,6 +160,7 @@ impl GenerationPass for LivenessPass {
                         .reduce(|acc, x| acc & x)
                         .unwrap_or_default())
                         | node.kill_reg();
+                    let u_def = settle(u_def);
 
                     // live_in[n] = gen[n] U (live_out[n] - kill[n])
                     let live_in =
